@@ -1261,6 +1261,144 @@ func guardsInLoops(c *Ctx) {
 	}
 }
 
+// ---------------------------------------------------------------- first / rest / for-in over malformed UTF-8
+// first, rest and `for c = s` work on runes: []rune(s) turns every invalid byte into U+FFFD (3 bytes when re-encoded).
+// All strings of 1..3 (thorough: ..4) pieces over {ASCII, lone continuation byte, lone lead byte, truncated 3- and
+// 4-byte sequences, 0xff, a valid 2-byte character}.  Oracles: no panic; first(s) is the first decoded rune, rest(s) the
+// re-encoding of the others (nil for a byte length <= 1), iteration yields exactly the decoded runes in order.
+func runeStrings(maxPieces int) []string {
+	pieces := []string{"a", "\x80", "\xc3", "\xe6\x97", "\xf0\x9f\x91", "\xff", "\xc3\xa9"}
+	var out []string
+	var rec func(cur string, n int)
+	rec = func(cur string, n int) {
+		if n > 0 {
+			out = append(out, cur)
+		}
+		if n == maxPieces {
+			return
+		}
+		for _, p := range pieces {
+			rec(cur+p, n+1)
+		}
+	}
+	rec("", 0)
+	return out
+}
+
+func grolBytes(s string) string {
+	var b strings.Builder
+	b.WriteByte('"')
+	for i := 0; i < len(s); i++ {
+		if s[i] >= 0x80 {
+			fmt.Fprintf(&b, "\\x%02x", s[i])
+		} else {
+			b.WriteByte(s[i])
+		}
+	}
+	b.WriteByte('"')
+	return b.String()
+}
+
+func firstRestStrings(c *Ctx) {
+	o := evalOpts{maxDepth: 200, dur: 2 * time.Second}
+	mp := 3
+	if c.Thorough() {
+		mp = 4
+	}
+	strOf := func(r outcome) (string, bool, bool) { // value, isString, isNil
+		if r.class != "V" {
+			return "", false, false
+		}
+		if sv, ok := r.val.(object.String); ok {
+			return sv.Value, true, false
+		}
+		return "", false, r.val.Type() == object.NIL
+	}
+	for _, sv := range runeStrings(mp) {
+		lit := grolBytes(sv)
+		runes := []rune(sv)
+		wantFirst := string(runes[:1])
+		wantRest, restNil := string(runes[1:]), len(sv) <= 1
+		for pi, pre := range []string{"s=" + lit + "; ", "func tf(s){ BODY }; tf(" + lit + ")", "s=" + lit + "; func tf(){ BODY }; tf()"} {
+			wrap := func(body string) string {
+				if strings.Contains(pre, "BODY") {
+					return strings.Replace(pre, "BODY", body, 1)
+				}
+				return pre + body
+			}
+			if pi > 0 && !c.Thorough() && c.R.Pct(60) {
+				continue
+			}
+			src := wrap("first(s)")
+			if v, isS, _ := strOf(check(c, "runes:first", src, o)); !isS || v != wantFirst {
+				c.Fail("first-not-first-rune", src, fmt.Sprintf("got %q (string=%v), want %q", v, isS, wantFirst))
+			}
+			src = wrap("rest(s)")
+			r := check(c, "runes:rest", src, o)
+			if v, isS, isNil := strOf(r); r.class != "P" && r.class != "H" && ((restNil && !isNil) || (!restNil && (!isS || v != wantRest))) {
+				c.Fail("rest-not-remaining-runes", src, fmt.Sprintf("got %q (string=%v nil=%v class=%s), want %q (nil=%v)", v, isS, isNil, r.class, wantRest, restNil))
+			}
+			src = wrap(`t=""; n=0; for ch = s { t = t + ch; n = n + 1 }; [n, t]`)
+			r = check(c, "runes:forin", src, o)
+			if r.class == "V" {
+				els := object.Elements(r.val)
+				ok := len(els) == 2
+				if ok {
+					n, okn := els[0].(object.Integer)
+					t, okt := els[1].(object.String)
+					ok = okn && okt && int(n.Value) == len(runes) && t.Value == string(runes)
+				}
+				if !ok {
+					c.Fail("forin-string-not-the-runes", src, fmt.Sprintf("got %.80s, want [%d, %q]", r.insp, len(runes), string(runes)))
+				}
+			} else if r.class == "E" {
+				c.Fail("forin-string-not-the-runes", src, "error: "+trunc(r.insp, 100))
+			}
+			for _, body := range []string{"rest(rest(s))", "first(rest(s))", "rest(s[1:])", "first(s[1:])", "rest(s[0:2])", "rest(s[1:3])", "first(s[len(s)-1:])",
+				"for ch = s[1:] { print(ch) }", "for ch = rest(s) { first(ch); rest(ch) }", "runes(s)", "len(rest(s))", "rest(s)+first(s)"} {
+				check(c, "runes:forms", wrap(body), o)
+			}
+		}
+	}
+	// the reported witnesses
+	for _, src := range []string{`rest("\xffa")`, `for c = "\xc3a" { print(c) }`, `s = "éa"; rest(s[1:3])`, `rest("\xffabc")`} {
+		check(c, "runes:corpus", src, o)
+	}
+}
+
+// ---------------------------------------------------------------- image operations on images of different sizes
+func imagePairs(c *Ctx) {
+	o := evalOpts{maxDepth: 200, dur: 2 * time.Second}
+	sizes := [][2]int{{0, 0}, {1, 1}, {2, 2}, {4, 4}, {3, 5}, {5, 3}, {1, 8}, {8, 1}, {16, 16}, {0, 3}, {3, 0}}
+	paint := func(name string, w, h int) string {
+		if w == 0 || h == 0 {
+			return ""
+		}
+		return fmt.Sprintf(`image.set(%q,0,0,[200,100,50]); image.set(%q,%d,%d,[10,20,30,40]); image.set_hsl(%q,%d,0,[0.5,0.5,0.5]); `,
+			name, name, w-1, h-1, name, w-1)
+	}
+	for i, a := range sizes {
+		for j, b := range sizes {
+			na, nb := fmt.Sprintf("pa%d_%d", i, j), fmt.Sprintf("pb%d_%d", i, j)
+			mk := fmt.Sprintf(`image.new(%q,%d,%d); image.new(%q,%d,%d); `, na, a[0], a[1], nb, b[0], b[1])
+			for _, body := range []string{
+				fmt.Sprintf(`image.add(%q,%q)`, na, nb),
+				paint(na, a[0], a[1]) + paint(nb, b[0], b[1]) + fmt.Sprintf(`image.add(%q,%q); image.add(%q,%q); image.add(%q,%q); len(image.png(%q))`, na, nb, nb, na, na, na, na),
+				paint(nb, b[0], b[1]) + fmt.Sprintf(`image.move_to(%q,0,0); image.line_to(%q,%d,%d); image.quad_to(%q,1,1,%d,0); image.draw(%q,[255,0,0]); image.add(%q,%q)`,
+					nb, nb, b[0], b[1], nb, b[0], nb, na, nb),
+				fmt.Sprintf(`func tf(x,y){ image.add(x,y) }; tf(%q,%q); tf(%q,%q)`, na, nb, nb, na),
+			} {
+				check(c, "image-pairs", mk+body, o)
+			}
+		}
+		// single-image operations on every size, coordinates in and out of the image
+		n := fmt.Sprintf("ps%d", i)
+		check(c, "image-sizes", fmt.Sprintf(`image.new(%q,%d,%d); `, n, a[0], a[1])+paint(n, max(a[0], 1), max(a[1], 1))+
+			fmt.Sprintf(`image.set(%q,%d,%d,[1,2,3]); image.set(%q,-1,-1,[1,2,3]); image.move_to(%q,-3,-3); image.cube_to(%q,1,1,%d,%d,20,20); image.close_path(%q); `+
+				`image.draw_hsl(%q,[0.1,0.2,0.3]); image.draw_ycbcr(%q,[1,2,3]); image.png(%q); image.save(%q)`, n, a[0], a[1], n, n, n, a[0], a[1], n, n, n, n, n), o)
+	}
+}
+
 // ---------------------------------------------------------------- wild grammar-generated programs
 type wild struct {
 	c     *Ctx
@@ -1650,7 +1788,10 @@ func runC07(c *Ctx) {
 		`func tf(s,a){s[a:]}; tf("日本語のテキスト"*8, 3)`,
 		// comments in the else block of a called function (seeded regression 4-1); guard below a counted loop (4-2)
 		"f=func(a){if a {1} else { // c\n 2}}; f(false)", "g=func(a){if a {1} else { /* c */ if !a {2}}}; g(false)",
-		`f=func(s){f(s)}; for i=2 {f("x")}`, "g=func(a,b){g(a+1,b)}; for i=2{g(i,i)}"}
+		`f=func(s){f(s)}; for i=2 {f("x")}`, "g=func(a,b){g(a+1,b)}; for i=2{g(i,i)}",
+		// image.add with a smaller / empty second image (seeded regression 5-1); rest of a string starting with an invalid byte (5-2)
+		`image.new("ca",4,4); image.new("cb",2,2); image.add("ca","cb")`, `image.new("cc",3,3); image.new("cz",0,0); image.add("cc","cz")`,
+		`rest("\xffa")`, `for c = "\xc3a" { print(c) }`, `s = "éa"; rest(s[1:3])`}
 	for _, s := range corpus {
 		check(c, "corpus", s, std)
 		evalOneAgrees(c, s)
@@ -1819,6 +1960,10 @@ func runC07(c *Ctx) {
 	// 3f. comments inside called functions; 3g. guards raised below running counted loops
 	commentPrograms(c)
 	guardsInLoops(c)
+
+	// 3h. first / rest / for-in over malformed UTF-8; 3i. image operations on images of different sizes
+	firstRestStrings(c)
+	imagePairs(c)
 
 	// 4. builtin / extension sweep
 	sweep(c)
